@@ -125,10 +125,20 @@ def check(df, date, bounds=None, stats=None):
     gz = res["in_gleitzone"].to_numpy()[order]
     params, _ = env.policy_env(date)
     midi = float(params["sozialv_beitr"]["geringfügige_eink_grenzen_m"]["midijob"])
-    ceil = {"ges_rentenv": res["_ges_rentenv_beitr_bemess_grenze_m"].to_numpy()[order],
-            "arbeitsl_v": res["_ges_rentenv_beitr_bemess_grenze_m"].to_numpy()[order],
-            "ges_krankenv": res["_ges_krankenv_beitr_bemess_grenze_m"].to_numpy()[order],
-            "ges_pflegev": res["_ges_krankenv_beitr_bemess_grenze_m"].to_numpy()[order]}
+    # statutory boundaries from the named parameters (not from the run's own nodes): the ceiling of
+    # the person's region and the marginal-employment limit
+    if bounds is None:
+        region = "ost" if bool(df["wohnort_ost"].iloc[0]) else "west"
+        sv = params["sozialv_beitr"]
+        mini = sv["geringfügige_eink_grenzen_m"].get("minijob")
+        if mini is None:
+            mini = float(np.ceil(sv["mindestlohn"] * sv["geringf_eink_faktor"] / sv["geringf_eink_divisor"]))
+        bounds = {"c_rv": float(sv["beitr_bemess_grenze_m"]["ges_rentenv"][region]),
+                  "c_kv": float(sv["beitr_bemess_grenze_m"]["ges_krankenv"][region]), "mini": float(mini)}
+    ones = np.ones(len(w))
+    ceil = {"ges_rentenv": bounds["c_rv"] * ones, "arbeitsl_v": bounds["c_rv"] * ones,
+            "ges_krankenv": bounds["c_kv"] * ones, "ges_pflegev": bounds["c_kv"] * ones}
+    marginal = w <= bounds["mini"] + 1e-9
     for x, node in CONTRIB.items():
         c = res[node].to_numpy().astype(float)[order]
         if (c < -1e-9).any():
@@ -138,9 +148,9 @@ def check(df, date, bounds=None, stats=None):
         if (d < -1e-9).any():
             i = int(np.argmin(d))
             fails.append(core.Failure(f"decreasing:{x}", f"{date}: {node} falls from {c[i]} at wage {w[i]} to {c[i+1]} at wage {w[i+1]}"))
-        if (c[gb] != 0).any():
-            i = int(np.flatnonzero(gb & (c != 0))[0])
-            fails.append(core.Failure(f"marginal-not-zero:{x}", f"{date}: {node} = {c[i]} at wage {w[i]} although geringfügig_beschäftigt"))
+        if (c[gb | marginal] != 0).any():
+            i = int(np.flatnonzero((gb | marginal) & (c != 0))[0])
+            fails.append(core.Failure(f"marginal-not-zero:{x}", f"{date}: {node} = {c[i]} at wage {w[i]} although the wage does not exceed the marginal-employment limit {bounds['mini']}"))
         above = w >= ceil[x] - 1e-9
         if above.sum() >= 2 and np.ptp(c[above]) > 1e-9:
             fails.append(core.Failure(f"not-constant-above-ceiling:{x}", f"{date}: {node} varies by {np.ptp(c[above])} above the ceiling {ceil[x][0]}"))
